@@ -784,3 +784,86 @@ def template_copies(case, ctx):
             'two copies were initialised with identical kernels (shared state)')
   ctx.note(labels=[case['where'], case['extra'], f'n{n}',
                    'named' if case['named'] else 'auto'], nontrivial=n >= 2)
+
+
+# ----------------------------------------------------------------------------
+# clashes that are first met while the variables already exist (apply / bind
+# on restored or earlier-initialised variables; the clashing declaration sits
+# in a branch init did not take)
+class _LateClash(nn.Module):
+  kind: str = 'var_var'
+  depth: int = 0
+  clash: bool = False
+
+  @nn.compact
+  def __call__(self, x):
+    if self.depth > 0:
+      return _LateClash(self.kind, self.depth - 1, self.clash,
+                        name='inner')(x) + 1.0
+    acc = self.variable('state', 'acc', lambda: jnp.zeros(()))
+    y = nn.Dense(2, name='lin')(x)
+    if self.clash:
+      if self.kind == 'var_var':
+        other = self.variable('state', 'acc', lambda: jnp.zeros(()))
+        y = y * (1.0 + other.value)
+      elif self.kind == 'sub_after_var':
+        y = y + nn.Dense(2, name='acc')(x)
+      elif self.kind == 'var_after_sub':
+        other = self.variable('state', 'lin', lambda: jnp.zeros(()))
+        y = y * (1.0 + other.value)
+      elif self.kind == 'var_other_col':
+        # same name in another collection: legal
+        other = self.variable('aux', 'acc', lambda: jnp.ones(()))
+        y = y * other.value
+    if self.is_mutable_collection('state'):
+      acc.value = acc.value + jnp.sum(y)
+    return y
+
+
+@clause('late_name_clashes',
+        strategy=lambda: st.tuples(
+            st.sampled_from(['var_var', 'sub_after_var', 'var_after_sub',
+                             'var_other_col', 'none']),
+            st.integers(0, 2), st.sampled_from(['apply', 'apply_mutable',
+                                                'apply_all', 'bind',
+                                                'bind_mutable']),
+            st.integers(0, 2**16)),
+        quick=120, thorough=3000, quick_shards=6, thorough_shards=16,
+        shrink=False,
+        rule='a module (nested 0-2 levels) initialised without a clash and '
+        'then applied / bound (immutable, state mutable, everything mutable) '
+        'with a branch that declares a second variable of the same collection '
+        'and name, a submodule named like an existing variable, or a variable '
+        'named like an existing submodule: NameInUseError, never silent '
+        'sharing; the same name in another collection and the clash-free '
+        'branch run and agree with the reference; non-trivial = a clash kind')
+def late_name_clashes(case, ctx):
+  kind, depth, how, seed = case
+  x = jnp.asarray(np.random.default_rng(seed).normal(size=(2, 3)), jnp.float32)
+  with sut('init'):
+    v = unfreeze(_LateClash(kind, depth, False).init(jax.random.key(seed), x))
+  if kind == 'var_other_col':
+    node = v.setdefault('aux', {})
+    for _ in range(depth):
+      node = node.setdefault('inner', {})
+    node['acc'] = jnp.ones(())
+  clash = kind in ('var_var', 'sub_after_var', 'var_after_sub')
+  mod = _LateClash(kind, depth, kind != 'none')
+  mutable = {'apply': False, 'apply_mutable': ['state'], 'apply_all': True,
+             'bind': False, 'bind_mutable': ['state']}[how]
+
+  def run():
+    if how.startswith('bind'):
+      return mod.bind(v, mutable=mutable)(x)
+    out = mod.apply(v, x, mutable=mutable)
+    return out if mutable is False else out[0]
+  if clash:
+    expect_raises(ferrors.NameInUseError, run, f'{how} of a module whose '
+                  f'apply-time branch has a {kind} clash (depth {depth})')
+  else:
+    with sut(f'{how} (no clash)'):
+      y = run()
+      y_ref = _LateClash('none', depth, False).apply(v, x)
+    require(np.allclose(np.asarray(y), np.asarray(y_ref), atol=1e-6),
+            f'{kind}: output differs from the clash-free module')
+  ctx.note(labels=[kind, how, f'depth{depth}'], nontrivial=clash)
